@@ -3103,6 +3103,15 @@ class BSP:
         if prop_count == 0:
             # No props, following code will divide by zero, also no point anyway.
             # Use the 'standard' version for the given version number.
+            if (
+                self.static_prop_version is StaticPropVersion.UNKNOWN
+                and vers_num == StaticPropVersion.V11.version
+                and self.version is not VERSIONS.BLACK_MESA
+            ):
+                # Black Mesa's variant shares this number and size. Below it is only
+                # picked for Black Mesa's BSP version, so props written in it would be
+                # reparsed as regular V11 everywhere else.
+                self.static_prop_version = StaticPropVersion.V11
             if self.static_prop_version is StaticPropVersion.UNKNOWN:
                 for vers in StaticPropVersion:
                     if vers.version == vers_num:
